@@ -50,19 +50,30 @@ func Ldexp(frac Decimal, exp int) Decimal {
 		return frac
 	}
 
-	if exp < minUnbiasedExponent {
-		return zero(frac.Signbit())
-	}
-
-	if exp > maxUnbiasedExponent+39 {
-		return inf(frac.Signbit())
-	}
-
 	neg := frac.Signbit()
-	fsig, fexp := frac.decompose()
-	fexp += int16(exp)
 
-	sig, exp16 := DefaultRoundingMode.reduce128(neg, fsig, fexp, 0)
+	if exp < -2*maxBiasedExponent {
+		return zero(neg)
+	}
+
+	if exp > 2*maxBiasedExponent {
+		return inf(neg)
+	}
+
+	// the limits apply to the exponent of the result, which includes the
+	// exponent frac already has
+	fsig, fexp := frac.decompose()
+	rexp := int(fexp) + exp
+
+	if rexp < minBiasedExponent-maxDigits-1 {
+		return zero(neg)
+	}
+
+	if rexp > maxBiasedExponent+39 {
+		return inf(neg)
+	}
+
+	sig, exp16 := DefaultRoundingMode.reduce128(neg, fsig, int16(rexp), 0)
 
 	if exp16 > maxBiasedExponent {
 		return inf(neg)
@@ -88,7 +99,7 @@ func New(sig int64, exp int) Decimal {
 		sig *= -1
 	}
 
-	if exp < minUnbiasedExponent+19 {
+	if exp < minUnbiasedExponent-19 {
 		return zero(neg)
 	}
 
